@@ -5,45 +5,12 @@ package main
 // have it (it is a connection-level message that belongs to no operation); sessions younger than
 // 14.5 s cannot carry one, older ones are judged by the sequential reference only (spec.go: slow()).
 // The `idle` step lets a session live that long on purpose, so that the ticker branch of the real
-// write loop is exercised with a live subscription — and it exhibits finding F-08e: a client that
-// waits 15 s before its connection_init gets the keep-alive BEFORE the ack of its init.
+// write loop is exercised with a live subscription. Finding F-08e (fixed by 1e7636c): the ticker used
+// to start with the connection, so a client that waited 15 s before its connection_init got the
+// keep-alive BEFORE the ack of its init; corpus/C08/F-08e-keepalive-before-ack.json is the detector
+// (the oracle's pre-ack clause has no exception for ticker frames).
 
-import (
-	"fmt"
-
-	"verifharness/hx"
-)
-
-const keyKeepAliveBeforeAck = "F-08e-keepalive-before-ack"
-
-// keepAliveBeforeAck is the (narrow) classifier of F-08e: on a connection old enough for the ticker
-// to have fired, a ka / pong precedes the first ack although the client had sent no ping. It returns
-// the description of the first such frame.
-func keepAliveBeforeAck(s Session, o *Observed) (string, bool) {
-	if o == nil || !o.slow() {
-		return "", false
-	}
-	for _, st := range s.Steps {
-		if st.Op == "frame" && st.F == "ping" {
-			return "", false // a pong may then be (wrongly) an answer: not this finding
-		}
-		if st.Op == "frame" && st.F == "init-ok" {
-			break
-		}
-	}
-	for i, f := range o.Wire {
-		switch f.Type {
-		case "ack":
-			return "", false
-		case "ka", "pong":
-			return fmt.Sprintf("message %d, %s, precedes the acknowledgement of a successful init: the keep-alive ticker fired on a connection %.1f s old whose client had not sent its connection_init yet", i, f.Type, o.WireTime.Seconds()), true
-		case "connerr":
-		default:
-			return "", false // something else precedes the ack: an ordinary violation, reported by the oracle
-		}
-	}
-	return "", false
-}
+import "verifharness/hx"
 
 // idleSession: a connection that outlives the keep-alive period, with the idle stretch before the
 // init (i = 0: the F-08e shape), after the init, or in the middle of a subscription's events. No
